@@ -196,7 +196,21 @@ def build(rng, P, rep, table_mode=False):
         elif k < 0.6:
             x = rng.choice(of('list') + of('str'))
             i = rng.choice(of('num'))
-            if rng.random() < 0.5:
+            c = rng.random()
+            if c < 0.35:
+                # a slice whose start / stop / step are constants or expressions
+                parts = []
+                for _pos in range(3):
+                    q = rng.random()
+                    parts.append(None if q < 0.35 else rng.choice([0, 1, 2, -1, 3]) if q < 0.6 else rng.choice(of('num')))
+                if not any(isinstance(q, Node) for q in parts):
+                    parts[rng.randrange(3)] = rng.choice(of('num'))
+                kids = tuple(q for q in parts if isinstance(q, Node))
+                add(lambda: x.rx[slice(*[q.rx if isinstance(q, Node) else q for q in parts])],
+                    lambda: x.ev()[slice(*[q.ev() if isinstance(q, Node) else q for q in parts])],
+                    f'{x.desc}[' + ':'.join('' if q is None else q.desc if isinstance(q, Node) else str(q) for q in parts) + ']',
+                    x.typ, 'index:slice-rx', (x,) + kids)
+            elif c < 0.6:
                 add(lambda: x.rx[0], lambda: x.ev()[0], f'{x.desc}[0]', 'any', 'index:const', (x,))
             else:
                 add(lambda: x.rx[i.rx], lambda: x.ev()[i.ev()], f'{x.desc}[{i.desc}]', 'any', 'index:rx', (x, i))
